@@ -52,7 +52,7 @@ func main() {
 	for i, cs := range cases {
 		fmt.Printf("CASE %d\n", i)
 		os.Stdout.Sync()
-		cs.D1 = c20lib.Padded(cs.D1, cs.Pad)
+		cs.D1 = c20lib.Enlarged(cs.D1, cs.Pad, cs.Long)
 		rep := cs.Repeat
 		if rep < 1 {
 			rep = 1
